@@ -321,6 +321,7 @@ class MacOracle:
 
     mode = "writer"
     tokens = False  # True: MAC values are concrete distinct tokens (fallback level, see C04)
+    near = None  # tokens mode only: a never-MACed input gets a NEAR-collision of the writer's MAC (adversarial valuation)
     log = []  # (key, iv, padded, out)
     windows_of = None
     reader_fresh = 0
@@ -331,6 +332,7 @@ class MacOracle:
         cls.mode = "writer"
         cls.log = []
         cls.windows_of = None
+        cls.near = None
         cls.reader_fresh = 0
         cls.reader_matched = 0
 
@@ -356,6 +358,20 @@ def install_ideal_mac():
                     if sym.fork(same):
                         return out2
             tok = hashlib.sha256(b"verif-mac-token-%d" % len(M.log)).digest()[:16]
+            if M.mode == "reader" and M.near is not None:
+                # adversarial MAC valuation: the MAC of the damaged data differs from the authentic MAC of
+                # the same slot (same iv, same padded length) only as `near` says - still a different MAC,
+                # so a reader that compares all 16 bytes must reject
+                base = None
+                for (k2, iv2, p2, out2) in M.log:
+                    if len(p2) == len(padded) and z3.is_true(z3.simplify(sym.bytes_equal_expr(iv2, iv))) and isinstance(out2, bytes):
+                        base = out2
+                if base is not None:
+                    t = bytearray(base)
+                    for pos_, delta in M.near:
+                        t[pos_] ^= delta
+                    M.log.append((self._key, iv, padded, bytes(t)))
+                    return bytes(t)
             if M.mode == "reader" and M.windows_of is not None:
                 fe = sym.byte_exprs(M.windows_of)
                 cons = []
